@@ -325,6 +325,24 @@ theorem no_cascade (cfg : Cfg) (h : List Step) :
     (runHistory cfg h).length ≤ 2 * nonAdminEvents h :=
   Lemmas.no_cascade cfg h
 
+/-- **No cascade, one report per event**: with the repaired `localDelivery` the number of reports
+of any history is at most the number of events (received, unsupported block, forwarded, delivered,
+deleted) that happened to non-administrative subjects … -/
+theorem no_cascade_events (h : List Step) :
+    (runHistory ⟨true⟩ h).length ≤ nonAdminEventCount h :=
+  Lemmas.no_cascade_events ⟨true⟩ h (Or.inl rfl)
+
+/-- … and for the code as it stands as long as no flow of the history ends in "no agent took the
+bundle" (D16 again: there a report is emitted although no event happened). -/
+theorem no_cascade_events_partial (h : List Step)
+    (hno : ∀ e ∈ h, Outcome.noAgent ∉ flowOutcomes e.subject e.flow) :
+    (runHistory ⟨false⟩ h).length ≤ nonAdminEventCount h :=
+  Lemmas.no_cascade_events ⟨false⟩ h (Or.inr hno)
+
+theorem no_cascade_events_witness :
+    ¬ (runHistory ⟨false⟩ [⟨witnessNode, witnessSubject, 0, .submit .noAgent⟩]).length ≤
+      nonAdminEventCount [⟨witnessNode, witnessSubject, 0, .submit .noAgent⟩] := by decide
+
 /-- **No cascade, re-entry form**: a report emitted anywhere in a history, re-entering any node
 (with any timestamp, extra blocks and receiver) along any flow, produces no report. -/
 theorem report_reentry_silent (cfg : Cfg) (h : List Step) (r : Report) (hr : r ∈ runHistory cfg h)
@@ -444,6 +462,15 @@ example : (match decAdminRecord (encAdminRecord witnessReport.record) with
 example : (flowReports ⟨true⟩ witnessNode exSubject 5 (.receive .forwarded)).map
     (fun r => (encAdminRecord r.record).length) = [27, 27, 27] := by decide
 example : exSubject.source.wf := ⟨by decide, by decide, by decide, by decide⟩
+example : happened (flowEvents exSubject (.receive .forwarded)) 0 = true ∧
+    requested exSubject (flowEvents exSubject (.receive .forwarded)) 0 = true ∧
+    happened (flowEvents exSubject (.receive .forwarded)) 3 = true := by decide
+example : (runHistory ⟨false⟩ [⟨witnessNode, exSubject, 5, .receive .forwarded⟩]).length = 3 := by decide
+example : ∀ e ∈ [(⟨witnessNode, { exSubject with flags := fAdmin }, 5, .receive .forwarded⟩ : Step)],
+    e.subject.admin = true := by decide
+example : (Outcome.forwarded ≠ .noAgent) := by decide
+example : Outcome.noAgent ∉ flowOutcomes exSubject (.receive .forwarded) := by decide
+example : nonAdminEventCount [⟨witnessNode, exSubject, 5, .receive .forwarded⟩] = 6 := by decide
 example : nonAdminEvents [⟨witnessNode, exSubject, 5, .receive .forwarded⟩] = 3 := by decide
 
 end Dtn7.Props.C15
